@@ -42,6 +42,19 @@ pub enum HC<'a> {
         #[arg(short, long, value_name = "N", default_value_t = 4)]
         block: u8,
     },
+    /// Device
+    Dev {
+        /// Bus
+        #[arg(short = 'b', long = "bus", default_value_t = 1)]
+        bus: u8,
+        /// Address
+        #[arg(short = 'a')]
+        addr: Option<u8>,
+        #[arg(short = 'v')]
+        verbose: bool,
+        #[command(subcommand)]
+        cmd: HS,
+    },
 }
 
 #[derive(Command)]
@@ -72,13 +85,15 @@ pub enum HG<'a> {
     Other(RawCommand<'a>),
 }
 
-const HELP_ALL: &str = "Commands:\r\n  led  Set led\r\n  go   \r\n  sub  Sub things\r\n  cp   Copy a file\r\n";
+const HELP_ALL: &str = "Commands:\r\n  led  Set led\r\n  go   \r\n  sub  Sub things\r\n  cp   Copy a file\r\n  dev  Device\r\n";
 const HELP_LED: &str = "Set led\r\n\r\nUsage: led [OPTIONS] <ID>\r\n\r\nArguments:\r\n  <ID>  LED id\r\n\r\nOptions:\r\n  -l, --lv [LEVEL]  Level\r\n  -h, --help        Print help\r\n";
 const HELP_GO: &str = "Usage: go [OPTIONS]\r\n\r\nOptions:\r\n  --sp [SPEED]  \r\n  -q            \r\n  -h, --help    Print help\r\n";
 const HELP_SUB: &str = "Sub things\r\n\r\nUsage: sub <COMMAND>\r\n\r\nOptions:\r\n  -h, --help  Print help\r\n\r\nCommands:\r\n  ping  Ping it\r\n";
 const HELP_SUB_PING: &str = "Ping it\r\n\r\nUsage: sub ping\r\n\r\nOptions:\r\n  -h, --help  Print help\r\n";
+const HELP_DEV: &str = "Device\r\n\r\nUsage: dev [OPTIONS] <COMMAND>\r\n\r\nOptions:\r\n  -b, --bus <BUS>  Bus\r\n  -a [ADDR]        Address\r\n  -v               \r\n  -h, --help       Print help\r\n\r\nCommands:\r\n  ping  Ping it\r\n";
+const HELP_DEV_PING: &str = "Ping it\r\n\r\nUsage: dev ping\r\n\r\nOptions:\r\n  -h, --help  Print help\r\n";
 const UNKNOWN: &str = "error: unknown command\r\n";
-const HELP_GROUP_ALL: &str = "Commands:\r\n  led  Set led\r\n  go   \r\n  sub  Sub things\r\n  cp   Copy a file\r\n\r\nMore:\r\n  halt  Stop\r\n";
+const HELP_GROUP_ALL: &str = "Commands:\r\n  led  Set led\r\n  go   \r\n  sub  Sub things\r\n  cp   Copy a file\r\n  dev  Device\r\n\r\nMore:\r\n  halt  Stop\r\n";
 const HELP_CP: &str = "Copy a file.\r\n\r\nSecond paragraph of the description.\r\n\r\nUsage: cp [OPTIONS] <SRC> [TO]\r\n\r\nArguments:\r\n  <SRC>  Source file\r\n  [TO]   \r\n\r\nOptions:\r\n  -b, --block <N>  Block size\r\n  -h, --help       Print help\r\n";
 const HELP_HALT: &str = "Stop.\r\n\r\nUsage: halt\r\n\r\nOptions:\r\n  -h, --help  Print help\r\n";
 
@@ -141,6 +156,13 @@ help_case!(cp_dash_h_among_values, HC<'_>, "cp\0a\0-b\x003\0-h", HELP_CP);
 help_case!(help_sub, HC<'_>, "help\0sub", HELP_SUB);
 help_case!(help_sub_ping, HC<'_>, "help\0sub\0ping", HELP_SUB_PING);
 help_case!(sub_ping_dash_h, HC<'_>, "sub\0ping\0-h", HELP_SUB_PING);
+// a parent command's options (with a default, optional, flag) and their values stand
+// between the parent and the sub-command whose help is asked for
+help_case!(help_dev, HC<'_>, "help\0dev", HELP_DEV);
+help_case!(dev_opts_dash_h, HC<'_>, "dev\0-b\x002\0-h", HELP_DEV);
+help_case!(dev_default_opt_ping_dash_h, HC<'_>, "dev\0-b\x002\0ping\0-h", HELP_DEV_PING);
+help_case!(help_dev_all_opts_ping, HC<'_>, "help\0dev\0--bus\x002\0-a\x003\0-v\0ping", HELP_DEV_PING);
+help_case!(help_dev_opts_unknown, HC<'_>, "help\0dev\0-a\x003\0nope", UNKNOWN);
 help_case!(help_unknown, HC<'_>, "help\0nope", UNKNOWN);
 help_case!(help_unknown_sub, HC<'_>, "help\0sub\0nope", UNKNOWN);
 help_case!(group_help_all, HG<'_>, "help", HELP_GROUP_ALL);
